@@ -17,8 +17,37 @@ def takeE : Nat → List String → PR (List E)
   | 0, ts => some ([], ts)
   | n + 1, ts => (match pE17 ts with | some (e, r) => (match takeE n r with | some (es, r2) => some (e :: es, r2) | none => none) | none => none)
 
+/-- a state argument: `arr k E*` (array of scalar expressions), `whole x` (a variable holding a whole
+    value) or a scalar expression -/
+def pAE : List String → PR AE
+  | "arr" :: k :: r => (match k.toNat? with | some k => (takeE k r).map (fun p => (.arr p.1, p.2)) | none => none)
+  | "whole" :: x :: r => some (.whole (nameCode x), r)
+  | ts => (pE17 ts).map (fun p => (.sc p.1, p.2))
+
+def takeAE : Nat → List String → PR (List AE)
+  | 0, ts => some ([], ts)
+  | n + 1, ts => (match pAE ts with | some (e, r) => (match takeAE n r with | some (es, r2) => some (e :: es, r2) | none => none) | none => none)
+
+/-- a payload pattern: `A<pre>|<0 or 1>|<suf>` (array pattern; pre, suf comma separated) or a scalar pattern -/
+def pP17 (tok : String) : Option P :=
+  if tok.startsWith "A" then
+    match (tok.drop 1).toString.splitOn "|" with
+    | [pre, sp, suf] =>
+      let items (t : String) : Option (List SP) := if t.isEmpty then some [] else (t.splitOn ",").mapM pSP
+      (match items pre, items suf with
+       | some a, some b => some (.arr a (sp == "1") b)
+       | _, _ => none)
+    | _ => none
+  else (pSP tok).map .sp
+
+/-- an argument of the call: `a:<kind>:v;v;…` (array) or a scalar -/
+def pArg (tok : String) : Option V :=
+  match tok.splitOn ":" with
+  | ["a", k, vs] => ((vs.splitOn ";").mapM (fun v => pS ("n:" ++ k ++ ":" ++ v))).map .arr
+  | _ => (pS tok).map .sc
+
 def pTarget : List String → PR Target
-  | "next" :: name :: k :: r => (match k.toNat? with | some k => (takeE k r).map (fun p => (.next name p.1, p.2)) | none => none)
+  | "next" :: name :: k :: r => (match k.toNat? with | some k => (takeAE k r).map (fun p => (.next name p.1, p.2)) | none => none)
   | "out" :: r => (pE17 r).map (fun p => (.output p.1, p.2))
   | _ => none
 
@@ -37,7 +66,7 @@ def pArm17 (s : String) : Option Fsm.Arm :=
   | name :: k :: r =>
     (match k.toNat? with
      | some k =>
-       (match takeN pSP k r with
+       (match takeN pP17 k r with
         | some (pats, "d" :: r1) => (match pTarget r1 with | some (t, []) => some ⟨name, pats, .direct t⟩ | _ => none)
         | some (pats, "g" :: n :: r1) =>
           (match n.toNat? with
@@ -49,8 +78,19 @@ def pArm17 (s : String) : Option Fsm.Arm :=
 
 def pKind (s : String) : Option NK := if s == "u64" then some .u64 else if s == "f64" then some .f64 else none
 
+def pIKind (s : String) : Option IK :=
+  if s.startsWith "[" then (pKind ((s.drop 1).toString.dropEnd 1).toString).map .arr else (pKind s).map .sc
+
+def kindText : NK → String | .u64 => "u64" | .f64 => "f64"
+
+/-- a state as the trace shows it: scalars by value, arrays by kind and shape -/
 def stateText (s : StateV) : String :=
-  s.name ++ ":" ++ ",".intercalate (s.payload.map (fun v => match v with | .num _ n => toString n | .bool b => toString b | .str t => t))
+  s.name ++ ":" ++ ",".intercalate (s.payload.map (fun v => match v with
+    | .sc (.num _ n) => toString n | .sc (.bool b) => toString b | .sc (.str t) => t
+    | .arr l => (match kindOfV (.arr l) with
+        | some (.arr k) => "a:" ++ kindText k ++ ":1x" ++ toString l.length
+        | _ => "a:?:1x" ++ toString l.length)
+    | _ => "?"))
 
 /-! reference simulation: the declared transition system with lexical scoping (inputs and the
     variables of the current arm's pattern) -/
@@ -67,15 +107,20 @@ def specGuard (env : Env) : List Guard → Except Unit (Option Guard)
 inductive SR where
   | moved (s : StateV) | out (v : S) | stuck
 
+def specArg (env : Env) : AE → Except Unit V
+  | .sc e => (match evalScalar noSelf env e with | .ok s => .ok (.sc s) | .error _ => .error ())
+  | .arr es => (match es.mapM (fun e => evalScalar noSelf env e) with | .ok l => .ok (.arr l) | .error _ => .error ())
+  | .whole x => (match env.get x with | some v => .ok v | none => .error ())
+
 def specTarget (env : Env) : Target → Except Unit SR
-  | .next name args => (match args.mapM (fun e => evalScalar noSelf env e) with | .ok vs => .ok (.moved ⟨name, vs⟩) | .error _ => .error ())
+  | .next name args => (match args.mapM (specArg env) with | .ok vs => .ok (.moved ⟨name, vs⟩) | .error _ => .error ())
   | .output e => (match evalScalar noSelf env e with | .ok v => .ok (.out v) | .error _ => .error ())
 
 def specStep (inputs : Env) (s : StateV) : List Fsm.Arm → Except Unit SR
   | [] => .ok .stuck
   | arm :: rest =>
     if arm.name == s.name && arm.pats.length == s.payload.length then
-      match matchSPs false arm.pats s.payload [] with
+      match matchPs arm.pats s.payload [] with
       | none => specStep inputs s rest
       | some bound =>
         let env := bound ++ inputs
@@ -101,13 +146,13 @@ def runC17 (fields : List String) (obs : String) : String × String × String :=
   let bad := ("bad-case", "bad-case", "-")
   match fields with
   | [_, maxs, inputs, outk, declared, start, arms, args] =>
-    let ins := (inputs.splitOn ",").mapM (fun d => match d.splitOn ":" with | [n, k] => (pKind k).map (fun k => (nameCode n, k)) | _ => none)
+    let ins := (inputs.splitOn ",").mapM (fun d => match d.splitOn ":" with | [n, k] => (pIKind k).map (fun k => (nameCode n, k)) | _ => none)
     let decl := (declared.splitOn ",").map (fun d => (d.splitOn ":").headD "")
-    let st : Option (String × List E) := match toks start with
-      | name :: k :: r => (match k.toNat? with | some k => (match takeE k r with | some (es, []) => some (name, es) | _ => none) | none => none)
+    let st : Option (String × List AE) := match toks start with
+      | name :: k :: r => (match k.toNat? with | some k => (match takeAE k r with | some (es, []) => some (name, es) | _ => none) | none => none)
       | _ => none
     let armsP := (arms.splitOn ";;").mapM pArm17
-    let argsP : Option (List S) := if args == "-" then some [] else (args.splitOn ",").mapM pS
+    let argsP : Option (List V) := if args == "-" then some [] else (args.splitOn ",").mapM pArg
     (match maxs.toNat?, ins, st, armsP, argsP with
      | some maxSteps, some ins, some st, some arms, some args =>
        let m : Machine := ⟨ins, pKind outk, decl, st, arms⟩
@@ -117,18 +162,18 @@ def runC17 (fields : List String) (obs : String) : String × String × String :=
          if m.inputs.length ≠ args.length then [] else
          match bindInputs m.inputs args [] with
          | .error _ => []
-         | .ok env => (match evalList env m.start.2, validate m with
+         | .ok env => (match evalAs env m.start.2, validate m with
            | .ok vs, .ok _ => visited m.arms maxSteps ⟨m.start.1, vs⟩ env
            | _, _ => [])
        let resText := match r with | .ok (.value v) => sText v | .ok (.halted s) => "tup:(atom:" ++ s.name ++ ")" | .error _ => "err"
        let model := resText ++ "|" ++ ";".intercalate (vis.map stateText)
        -- specification
-       let wellFormed := decide (m.inputs.length = args.length) && (m.inputs.zip args).all (fun p => kindOfS p.2 == some p.1.2) &&
+       let wellFormed := decide (m.inputs.length = args.length) && (m.inputs.zip args).all (fun p => kindOfV p.2 == some p.1.2) &&
          (let names := arms.map (·.name); decl.all names.contains && names.contains st.1 && (targets m).all names.contains)
        let exp : String :=
          if !wellFormed then "err|" else
-         let inputsEnv : Env := (m.inputs.zip args).map (fun p => (p.1.1, V.sc p.2))
-         match st.2.mapM (fun e => evalScalar noSelf inputsEnv e) with
+         let inputsEnv : Env := (m.inputs.zip args).map (fun p => (p.1.1, p.2))
+         match st.2.mapM (specArg inputsEnv) with
          | .error _ => "err|"
          | .ok vs =>
            let (res, seen) := specRun inputsEnv arms maxSteps ⟨st.1, vs⟩ []
